@@ -6,7 +6,13 @@ API (_check_formatting + _format_render); the padded output is lexed and compare
 Coq with Padding.pad on the lexed inner render, and the oracle (rectangle contract on the
 padded box; fill glyph with default attributes / untouched outside the inner render; inner
 cells identical to the inner render drawn at the alignment offset) is evaluated on the
-implementation's own tokens at two start positions."""
+implementation's own tokens at two start positions.
+
+Round 4: HISTORIES (model/PadHist.v, model/PadHistTie.v).  A case may be a whole history of terminal
+resizes, RenderIterator.set_padding / set_render_size / seek / next and calls with their own padding
+(format / draw / _check_formatting+_format_render / Renderable.render), run in one process; every
+output of the history is judged by the same oracle against the padding and the terminal size that the
+history puts in force at that step (spec_descrs), and compared with the model's fold (run)."""
 from __future__ import annotations
 
 import core
@@ -14,10 +20,14 @@ import lexer
 import renderlib as R
 
 LEVEL = "proof"
-EXTRA_TARGETS = ["model/PadTie.vo"]
+EXTRA_TARGETS = ["model/PadTie.vo", "model/PadHistTie.vo"]
 HEADER = ("From Coq Require Import List ZArith.\nImport ListNotations.\n"
           "From TI Require Import lib.Term lib.RectCheck model.Padding model.PadTie.\nOpen Scope Z_scope.\n")
 FILL_T = {"space": "(Some GSpace)", "star": "(Some (GOther 42))", "empty": "None"}
+HHEADER = ("From Coq Require Import List ZArith.\nImport ListNotations.\n"
+           "From TI Require Import lib.Term lib.RectCheck model.Padding model.PadTie model.PadHist model.PadHistTie.\n"
+           "Open Scope Z_scope.\n")
+IMG_K = 100  # frame numbers of images in a history's table of bare renders (impl_c05.IMG_K)
 
 
 def gen_render(rng):
@@ -134,19 +144,438 @@ def explain(c, res):
     return vals[0] if vals else out[-300:]
 
 
+# ------------------------------------------------------------------------------- histories
+# (round 4) A history is one case: an initial terminal size, optionally a RenderIterator over an
+# N-frame renderable (constructor padding, cache setting), optionally some images, and a list of
+# steps: resize | set_padding | set_size | seek | next | call (a padding given to ONE call:
+# format(image, spec), image.draw(...), _check_formatting+_format_render, Renderable.render()).
+# Every output is judged inside Coq (model/PadHistTie.v) by the C05 oracle against the padding and
+# terminal size the history says are in force at that step.
+
+
+def zz(n):
+    return f"({n})" if n < 0 else str(n)
+
+
+def padspec_term(p):
+    if p["kind"] == "aligned":
+        k = f"PAligned {zz(p['W'])} {zz(p['H'])} {p['ha']}%nat {p['va']}%nat"
+    elif p["kind"] == "old":
+        k = f"POld {zz(p['W'])} {zz(p['H'])} {p['ha']}%nat {p['va']}%nat"
+    else:
+        k = f"PExact {p['l']} {p['t']} {p['r']} {p['b']}"
+    return f"{{| ps_kind := {k}; ps_fill := {FILL_T[p.get('fill', 'space')]} |}}"
+
+
+def call_size(c, st):
+    if st["via"] == "render":
+        return st["w"], st["h"]
+    return tuple(c["images"][st["k"] - IMG_K]["cells"])
+
+
+def step_term(c, st):
+    op = st["op"]
+    if op == "resize":
+        return f"HResize {st['tw']} {st['th']}"
+    if op == "set_padding":
+        return f"HSetPadding {padspec_term(st['pad'])}"
+    if op == "set_size":
+        return f"HSetSize {st['w']} {st['h']}"
+    if op == "seek":
+        return f"HSeek {st['k']}%nat"
+    if op == "next":
+        return "HNext"
+    w, h = call_size(c, st)
+    return f"HCall {padspec_term(st['pad'])} {st['k']}%nat {w} {h}"
+
+
+def hist_term(c, res):
+    toks = lambda text: lexer.coq_toks(R.strip_payload(lexer.lex(text)))
+    frames = "[" + "; ".join(f"({k}%nat, {w}, {h}, {toks(t)})" for k, w, h, t in res["frames"]) + "]"
+    obs = "[" + "; ".join(toks(o["out"]) for o in res["outs"]) + "]"
+    sizes = "[" + "; ".join(f"Some ({o['frame_size'][0]}, {o['frame_size'][1]})" if o.get("frame_size") else "None"
+                            for o in res["outs"]) + "]"
+    pad0 = c.get("pad0") or {"kind": "exact", "l": 0, "t": 0, "r": 0, "b": 0, "fill": "space"}
+    w, h = c.get("size", [1, 1])
+    cached = c.get("cache", True)
+    cached = cached if isinstance(cached, bool) else c.get("frames", 0) <= cached
+    return (f"{{| hc_tw := {c['term_size'][0]}; hc_th := {c['term_size'][1]}; hc_w := {w}; hc_h := {h}; "
+            f"hc_pad := {padspec_term(pad0)}; hc_N := {max(c.get('frames', 0), 1)}%nat; "
+            f"hc_cached := {'true' if cached else 'false'}; "
+            f"hc_steps := [{'; '.join(step_term(c, st) for st in c['steps'])}]; "
+            f"hc_frames := {frames}; hc_obs := {obs}; hc_sizes := {sizes} |}}")
+
+
+def padded_size_of(p, term, size):
+    """generator-side only: the padded size of padding p set on terminal `term` around `size`"""
+    w, h = size
+    if p["kind"] == "exact":
+        return p["l"] + w + p["r"], p["t"] + h + p["b"]
+    W = p["W"] if p["W"] > 0 else max(term[0] + p["W"], 1)
+    H = p["H"] if p["H"] > 0 else max(term[1] + p["H"], 1)
+    return max(W, w), max(H, h)
+
+
+def gen_padding(rng, size, term, fills=("space", "space", "star", "empty")):
+    w, h = size
+    fill = rng.choice(fills)
+    if rng.random() < 0.3:
+        return {"kind": "exact", "l": rng.choice([0, 0, 1, 2, 3]), "t": rng.choice([0, 0, 1, 2]),
+                "r": rng.choice([0, 0, 1, 2, 3]), "b": rng.choice([0, 0, 1, 2]), "fill": fill}
+
+    def dim(x, t):
+        r = rng.random()
+        if r < 0.55:
+            return max(1, x + rng.randint(-1, 4))
+        if r < 0.7:
+            return 0
+        return -rng.randint(0, min(t, 4))
+    return {"kind": "aligned", "W": dim(w, term[0]), "H": dim(h, term[1]), "ha": rng.randrange(3), "va": rng.randrange(3),
+            "fill": fill}
+
+
+def same_box_variant(rng, p, term, size):
+    """another padding with the SAME padded size around `size` on terminal `term`: other alignment,
+    other fill, exact margins with the same sums, an absolute / relative spelling of the same box"""
+    w, h = size
+    pw, ph = padded_size_of(p, term, size)
+    how = rng.choice(["align", "fill", "exact", "aligned", "relative"])
+    fill = p["fill"]
+    if how == "fill":
+        fill = rng.choice([f for f in ("space", "star", "empty") if f != p["fill"]])
+        return {**p, "fill": fill}
+    if how == "exact" or (how == "align" and p["kind"] == "exact"):
+        l, t = rng.randint(0, pw - w), rng.randint(0, ph - h)
+        return {"kind": "exact", "l": l, "t": t, "r": pw - w - l, "b": ph - h - t, "fill": fill}
+    if how == "relative" and term[0] >= pw and term[1] >= ph:
+        # non-positive dimensions resolving to the same box on THIS terminal
+        return {"kind": "aligned", "W": pw - term[0], "H": ph - term[1], "ha": rng.randrange(3), "va": rng.randrange(3),
+                "fill": fill}
+    return {"kind": "aligned", "W": pw, "H": ph, "ha": rng.randrange(3), "va": rng.randrange(3),
+            "fill": rng.choice([fill, fill, "space", "star", "empty"])}
+
+
+def gen_iter_history(rng, quick=True):
+    w, h = rng.randint(1, 4), rng.randint(1, 3)
+    n = rng.choice([2, 2, 3])
+    term = [rng.randint(max(4, w + 1), 12), rng.randint(max(4, h + 1), 9)]
+    cache = rng.choice([True, True, True, False, n, n - 1, 100])
+    loops = rng.choice([-1, -1, 3])
+    size = [w, h]
+    c = {"kind": "history", "flavour": "iterator", "term_size": list(term), "size": [w, h], "frames": n, "cache": cache,
+         "loops": loops, "pad0": gen_padding(rng, size, term), "steps": []}
+    cur, cur_term = c["pad0"], list(term)      # the iterator's padding and the terminal it was set on
+    pos, left = 0, loops
+    steps = c["steps"]
+    for _ in range(rng.randint(5, 12)):
+        r = rng.random()
+        if r < 0.5:
+            for _ in range(rng.choice([1, 1, 2, n])):
+                steps.append({"op": "next"})
+                pos += 1
+                if pos == n:
+                    pos, left = 0, left - 1
+                    if left == 0:
+                        return c
+        elif r < 0.75:
+            p = same_box_variant(rng, cur, cur_term, size) if rng.random() < 0.7 else gen_padding(rng, size, term)
+            steps.append({"op": "set_padding", "pad": p})
+            cur, cur_term = p, list(term)
+        elif r < 0.85:
+            k = rng.randrange(n)
+            steps.append({"op": "seek", "k": k})
+            pos = k
+        elif r < 0.93:
+            term = [rng.randint(max(4, w + 1), 12), rng.randint(max(4, h + 1), 9)]
+            steps.append({"op": "resize", "tw": term[0], "th": term[1]})
+        else:
+            size = [rng.randint(1, 4), rng.randint(1, 3)]
+            steps.append({"op": "set_size", "w": size[0], "h": size[1]})
+    steps.append({"op": "next"})
+    return c
+
+
+def gen_call_history(rng, quick=True):
+    images = []
+    style = rng.choice(["block", "block", "block", "kitty", "iterm2"])
+    for _ in range(rng.choice([1, 1, 2])):   # images of ONE class
+        render = gen_render(rng)
+        while render["style"] != style:
+            render = gen_render(rng)
+        render["cells"] = [rng.randint(1, 4), rng.randint(1, 3)]
+        render["alpha"] = None
+        render["args"] = {k: v for k, v in render["args"].items() if k == "method"}
+        if images and "term" in images[0]:
+            render["term"] = images[0]["term"]   # one terminal identity per history (it is per class)
+        images.append(render)
+    term = [rng.randint(4, 14), rng.randint(4, 10)]
+    c = {"kind": "history", "flavour": "calls", "term_size": list(term), "images": images, "steps": []}
+    pool = []
+    for _ in range(rng.choice([1, 2, 2, 3])):   # a few paddings, used again and again
+        W = rng.choice([0, 0, 0, -1, -2, rng.randint(1, 8)])
+        H = rng.choice([-2, -2, 0, 0, -1, -3, rng.randint(1, 6)])
+        pool.append({"kind": "old", "W": W, "H": H, "ha": rng.randrange(3), "va": rng.randrange(3), "fill": "space"})
+    for _ in range(rng.randint(4, 9)):
+        if rng.random() < 0.4 and c["steps"]:
+            term = [rng.randint(4, 14), rng.randint(4, 10)]
+            c["steps"].append({"op": "resize", "tw": term[0], "th": term[1]})
+            continue
+        p = rng.choice(pool)
+        if rng.random() < 0.2:   # the new API's per-call padding on a renderable
+            c["steps"].append({"op": "call", "via": "render", "k": rng.randrange(2), "w": rng.randint(1, 4), "h": rng.randint(1, 3),
+                               "pad": {"kind": "aligned", "W": min(p["W"], 8), "H": min(p["H"], 6), "ha": p["ha"], "va": p["va"],
+                                       "fill": rng.choice(["space", "star", "empty"])}})
+            continue
+        vias = ["fmt"]
+        if p["W"] >= 0 and (p["H"] >= 0 or p["H"] == -2):
+            vias += ["format"] * 3
+        if p["W"] <= term[0]:
+            vias += ["draw"] * 2
+        c["steps"].append({"op": "call", "via": rng.choice(vias), "k": IMG_K + rng.randrange(len(images)), "pad": p,
+                           "pres": rng.randrange(6)})
+    return c
+
+
+def history_corpus():
+    sp, st, em = "space", "star", "empty"
+    al = lambda W, H, ha, va, fill=sp: {"kind": "aligned", "W": W, "H": H, "ha": ha, "va": va, "fill": fill}
+    ex = lambda l, t, r, b, fill=sp: {"kind": "exact", "l": l, "t": t, "r": r, "b": b, "fill": fill}
+    old = lambda W, H, ha, va: {"kind": "old", "W": W, "H": H, "ha": ha, "va": va, "fill": sp}
+    nx, cs = {"op": "next"}, []
+    # a frame visited again (second loop / backward seek) after set_padding() to ANOTHER padding of the
+    # SAME padded size: other alignment, other fill, empty fill, exact margins with the same sums,
+    # the same box spelt relative to the terminal; caching on / off / by count
+    pairs = [(al(6, 4, 0, 0), al(6, 4, 2, 2)), (al(6, 4, 1, 1), al(6, 4, 1, 1, st)), (al(5, 3, 1, 1, st), al(5, 3, 1, 1, em)),
+             (al(6, 4, 1, 1), ex(4, 0, 0, 2)), (ex(1, 1, 3, 1, st), ex(3, 0, 1, 2, st)), (al(6, 4, 0, 2), al(-3, -3, 2, 0)),
+             (al(6, 4, 1, 1), ex(1, 1, 1, 1, st))]
+    for cache in (True, False, 2):
+        for a, b in pairs:
+            cs.append({"kind": "history", "flavour": "iterator", "term_size": [9, 7], "size": [2, 2], "frames": 2, "cache": cache,
+                       "loops": 3, "pad0": a, "steps": [nx, nx, {"op": "set_padding", "pad": b}, nx, nx,
+                                                        {"op": "set_padding", "pad": a}, {"op": "seek", "k": 0}, nx]})
+    # set_padding(relative) resolves against the terminal size at THAT call; later resizes do not matter
+    cs.append({"kind": "history", "flavour": "iterator", "term_size": [9, 7], "size": [2, 1], "frames": 2, "cache": True, "loops": -1,
+               "pad0": al(0, -2, 1, 1), "steps": [nx, {"op": "resize", "tw": 6, "th": 5}, nx, {"op": "set_padding", "pad": al(0, -2, 1, 1)},
+                                                   nx, nx, {"op": "set_size", "w": 3, "h": 2}, nx, {"op": "seek", "k": 0}, nx]})
+    # the same per-call padding / format specifier on the same class before and after resizes
+    blk = {"style": "block", "cells": [3, 2], "img": {"mode": "RGB", "size": [4, 4], "seed": 1, "kind": "runs"}, "alpha": None, "args": {}}
+    blk2 = {**blk, "cells": [2, 1], "img": {**blk["img"], "seed": 2}}
+    kit = {"style": "kitty", "cells": [3, 2], "img": blk["img"], "alpha": None, "args": {"method": "lines"}}
+    rs = lambda tw, th: {"op": "resize", "tw": tw, "th": th}
+    for p, pres in ((old(0, -2, 1, 1), 2), (old(0, 0, 0, 2), 1), (old(5, -2, 2, 0), 0), (old(0, 3, 1, 1), 0)):
+        for via in ("format", "draw", "fmt"):
+            call = lambda k=IMG_K: {"op": "call", "via": via, "k": k, "pad": p, "pres": pres}
+            cs.append({"kind": "history", "flavour": "calls", "term_size": [9, 7], "images": [blk, blk2],
+                       "steps": [call(), rs(6, 5), call(), call(IMG_K + 1), rs(12, 9), call(), rs(9, 7), call()]})
+    cs.append({"kind": "history", "flavour": "calls", "term_size": [9, 7], "images": [kit],
+               "steps": [{"op": "call", "via": "format", "k": IMG_K, "pad": old(0, -2, 1, 1), "pres": 0}, rs(7, 6),
+                         {"op": "call", "via": "format", "k": IMG_K, "pad": old(0, -2, 1, 1), "pres": 0}]})
+    for fill in (sp, em):
+        rc = lambda k: {"op": "call", "via": "render", "k": k, "w": 2, "h": 2, "pad": al(0, -1, 2, 1, fill)}
+        cs.append({"kind": "history", "flavour": "calls", "term_size": [9, 7], "images": [],
+                   "steps": [rc(0), rs(6, 5), rc(0), rc(1), rs(9, 7), rc(0)]})
+    return cs
+
+
+def hist_outputs(c):
+    return sum(1 for st in c["steps"] if st["op"] in ("next", "call"))
+
+
+def hist_features(c):
+    """(revisits of a frame after a set_padding to another padding of the same padded size,
+        per-call paddings repeated after a resize)"""
+    revisits = repeats = 0
+    if c.get("frames"):
+        n, term, size = c["frames"], list(c["term_size"]), list(c["size"])
+        cur, cur_term, pos = c["pad0"], list(term), 0
+        shown = {}   # frame -> (padding as shown last, padded size)
+        for st in c["steps"]:
+            op = st["op"]
+            if op == "resize":
+                term = [st["tw"], st["th"]]
+            elif op == "set_padding":
+                cur, cur_term = st["pad"], list(term)
+            elif op == "set_size":
+                size = [st["w"], st["h"]]
+            elif op == "seek":
+                pos = st["k"]
+            elif op == "next":
+                key = (json_key(cur), tuple(cur_term))
+                box = (padded_size_of(cur, cur_term, size), tuple(size))
+                if pos in shown and shown[pos][0] != key and shown[pos][1] == box and box[0] != tuple(size):
+                    revisits += 1
+                shown[pos] = (key, box)
+                pos = (pos + 1) % n
+    term, seen = list(c["term_size"]), {}
+    for st in c["steps"]:
+        if st["op"] == "resize":
+            term = [st["tw"], st["th"]]
+        elif st["op"] == "call":
+            p = st["pad"]
+            if p["W"] <= 0 or p["H"] <= 0:
+                key = (json_key(p), st["via"])
+                if key in seen and seen[key] != term:
+                    repeats += 1
+                seen[key] = list(term)
+    return revisits, repeats
+
+
+def json_key(o):
+    import json
+    return json.dumps(o, sort_keys=True)
+
+
+def describe_history(c):
+    def pd(p):
+        if p["kind"] == "exact":
+            return f"Exact({p['l']},{p['t']},{p['r']},{p['b']},{p['fill']})"
+        return f"{'Aligned' if p['kind'] == 'aligned' else 'old'}({p['W']},{p['H']},{'<|>'[p['ha']]},{'^-_'[p['va']]},{p['fill']})"
+
+    def sd(st):
+        op = st["op"]
+        if op == "resize":
+            return f"resize({st['tw']}x{st['th']})"
+        if op == "set_padding":
+            return f"set_padding({pd(st['pad'])})"
+        if op == "set_size":
+            return f"set_render_size({st['w']}x{st['h']})"
+        if op == "seek":
+            return f"seek({st['k']})"
+        if op == "next":
+            return "next"
+        tgt = f"renderable frame {st['k']} at {st['w']}x{st['h']}" if st["via"] == "render" else f"image{st['k'] - IMG_K}"
+        return f"{st['via']}({tgt}, {pd(st['pad'])})"
+    head = f"terminal {c['term_size'][0]}x{c['term_size'][1]}"
+    if c.get("frames"):
+        head += (f"; RenderIterator({c['frames']} frames of {c['size'][0]}x{c['size'][1]}, padding={pd(c['pad0'])}, "
+                 f"cache={c['cache']}, loops={c['loops']})")
+    if c.get("images"):
+        head += "; images " + ", ".join(f"{i['style']} {i['cells'][0]}x{i['cells'][1]}" for i in c["images"])
+    return head + ": " + " ; ".join(sd(st) for st in c["steps"])
+
+
+def eval_histories(cases, tag="c05h"):
+    """run the histories (EACH IN ITS OWN forked PROCESS, see impl_c05.run_isolated: a history is
+    self-contained, what a process remembers from one history cannot leak into the next, a replay is
+    exact) and evaluate them in Coq;
+    returns (impl results, {index: code}, errors)"""
+    impl = core.run_impl_parallel("impl_c05.py", cases)
+    terms, owner, codes, errors = [], [], {}, []
+    for i, (c, r) in enumerate(zip(cases, impl)):
+        if "error" in r or len(r["outs"]) != hist_outputs(c):
+            codes[i] = -1
+            continue
+        try:
+            terms.append(hist_term(c, r))
+            owner.append(i)
+        except lexer.LexError:
+            codes[i] = -2
+    if terms:
+        bad, errs = core.coq_shards(tag, HHEADER, terms, "hcase", "hbad cases", shard=max(4, min(12, (len(terms) + 15) // 16)))
+        errors += errs
+        for idx, code in bad:
+            codes[owner[idx]] = code
+    return impl, codes, errors
+
+
+def hist_explain(c, res):
+    text = HHEADER + f"Set Printing Width 100000.\nEval vm_compute in (hexplain ({hist_term(c, res)})).\n"
+    rc, out = core.coq_eval_file(f"c05h_explain_{id(c)}", text)
+    vals = core.parse_evals(out)
+    return " ".join(vals[0].split()) if vals else out[-300:]
+
+
+def shrink_history(c, rounds=10):
+    """smallest failing history found by (1) cutting after an output, (2) dropping single steps;
+    every candidate is run in its own process (a history must fail by itself)"""
+    def failing(cands):
+        if not cands:
+            return None
+        _, codes, _ = eval_histories(cands, tag="c05hs")
+        for i, cand in enumerate(cands):
+            if codes.get(i, 0) >= 2:
+                return cand
+        return None
+    outs = [i for i, st in enumerate(c["steps"]) if st["op"] in ("next", "call")]
+    best = failing([{**c, "steps": c["steps"][: i + 1]} for i in outs])
+    if best is None:
+        return None
+    for _ in range(rounds):
+        cands = [{**best, "steps": best["steps"][:i] + best["steps"][i + 1:]} for i in range(len(best["steps"]))]
+        cands = [k for k in cands if hist_outputs(k) >= 1]
+        nxt = failing(cands)
+        if nxt is None:
+            break
+        best = nxt
+    return best
+
+
 def run(ctx):
     rng = ctx.rng
+    histories = []
     if ctx.replay:
         cases = [ctx.replay["replay"]["case"]]
+        if cases[0].get("kind") == "history":
+            cases, histories = [], cases
     else:
         n = 320 if ctx.quick else 6000
         cases = corpus() + [gen_case(rng) for _ in range(n)]
         cases += [{"kind": "exact-invalid", "dims": [rng.randint(-2, 3) for _ in range(4)]} for _ in range(40)]
-    impl = core.run_impl_parallel("impl_c05.py", cases)
+        nh = 50 if ctx.quick else 1200
+        histories = history_corpus() + [(gen_iter_history if k % 2 else gen_call_history)(rng) for k in range(nh)]
+    from concurrent.futures import ThreadPoolExecutor
+    with ThreadPoolExecutor(max_workers=2) as pool:   # the histories run beside the single cases
+        hfut = pool.submit(eval_histories, histories) if histories else None
+        impl = core.run_impl_parallel("impl_c05.py", cases)
+        himpl, hcodes, herrors = hfut.result() if hfut else ([], {}, [])
     terms, owner = [], []
-    failures, mismatches, errors = [], [], []
-    hist = {"kind": {}, "fill": {}, "style": {}, "via": {}, "relative": 0, "padded_h": 0, "padded_v": 0}
+    failures, mismatches, errors = [], [], list(herrors)
+    hist = {"kind": {}, "fill": {}, "style": {}, "via": {}, "relative": 0, "padded_h": 0, "padded_v": 0,
+            "histories": {"iterator": 0, "calls": 0, "outputs": 0, "cache_on": 0, "cache_off": 0,
+                          "revisits_after_same_box_padding_change": 0, "relative_call_repeated_after_resize": 0,
+                          "via": {}}}
     distinct = set()
+    hh = hist["histories"]
+    shrunk = 0
+    for i, (c, r) in enumerate(zip(histories, himpl)):
+        hh[c.get("flavour", "calls")] = hh.get(c.get("flavour", "calls"), 0) + 1
+        hh["outputs"] += hist_outputs(c)
+        if c.get("frames"):
+            cached = c["cache"] if isinstance(c["cache"], bool) else c["frames"] <= c["cache"]
+            hh["cache_on" if cached else "cache_off"] += 1
+        for st in c["steps"]:
+            if st["op"] == "call":
+                hh["via"][st["via"]] = hh["via"].get(st["via"], 0) + 1
+        rv, rp = hist_features(c)
+        hh["revisits_after_same_box_padding_change"] += rv
+        hh["relative_call_repeated_after_resize"] += rp
+        if rv or rp:
+            distinct.add(core.sig(["history", c]))
+        code = hcodes.get(i, 0)
+        if code == 0:
+            continue
+        if code == -1:
+            failures.append({"signature": core.sig(["history-raise", c]),
+                             "what": f"a step of the history raised / an output is missing: {r.get('error', len(r.get('outs', [])))} — "
+                                     f"{describe_history(c)}", "replay": {"case": c}})
+        elif code == -2:
+            failures.append({"signature": core.sig(["history-lex", c]), "what": f"unlexable output — {describe_history(c)}",
+                             "replay": {"case": c}})
+        elif code & 2:
+            small = c
+            if shrunk < 2 and not ctx.replay:
+                shrunk += 1
+                small = shrink_history(c) or c
+            res_small = r if small is c else eval_histories([small], tag="c05hx")[0][0]
+            why = hist_explain(small, res_small) if "outs" in res_small else ""
+            failures.append({
+                "signature": core.sig(["history-oracle", small]),
+                "what": "an output of the history is NOT pad(padding in force, bare frame) for the terminal size in force "
+                        f"((well-formed, outputs expected, first output failing the oracle with its (margins, size, frame), "
+                        f"first difference from the model) = {why}) — {describe_history(small)}",
+                "replay": {"case": small, "outputs": [o["out"][:400] for o in res_small.get("outs", [])][:12]}})
+        else:
+            mismatches.append({"case": c, "code": code, "explain": hist_explain(c, r) if len(mismatches) < 3 else ""})
     for i, (c, r) in enumerate(zip(cases, impl)):
         if c.get("kind") == "exact-invalid":
             want = int(any(d < 0 for d in c["dims"]))
@@ -210,7 +639,7 @@ def run(ctx):
                 mismatches.append({"case": c, "code": code, "explain": explain(c, r) if len(mismatches) < 3 else ""})
     return {
         "corr_name": "Padding.pad / aligned_dims / resolve / old_dims (model) == real Padding classes, Renderable.render gate, old image API",
-        "evaluations": len(cases),
+        "evaluations": len(cases) + len(histories),
         "distinct_nontrivial": len(distinct),
         "rule": "corpus (9 alignments x {aligned absolute, aligned relative with empty fill on a graphics render, old API defaults}, exact, "
                 "the narrow-pad-width old-API shape) + random: inner renders of block/kitty/iterm2 (1..6 x 1..5 cells, every method, "
@@ -218,13 +647,25 @@ def run(ctx):
                 "fills ' ', '*', '' ; ExactPadding margins 0..3; small terminals so relative dimensions matter; pad() directly and "
                 "through Renderable.render; old API through _check_formatting + _format_render with both spellings of the alignments; "
                 "plus 40 ExactPadding validation cases. Non-trivial: padded on both axes with a multi-line inner render (old API: "
-                "padded, multi-line); distinct by (padding, fill, size, style, terminal).",
-        "samples": [describe(c) for c in cases[:2] + cases[40:42] if "render" in c],
+                "padded, multi-line); distinct by (padding, fill, size, style, terminal). "
+                "HISTORIES (one process each): corpus (a 2-frame RenderIterator looped / sought back after set_padding to another "
+                "padding of the same padded size - other alignment, other fill, empty fill, exact margins with the same sums, the box "
+                "spelt relative - with caching on, off and by count; relative set_padding before/after a resize; the same format "
+                "specifier / draw() padding / _check_formatting+_format_render / Renderable.render(padding=) on the same class and "
+                "instance before and after resizes) + random histories of resize | set_padding (70% same-box variants) | "
+                "set_render_size | seek | next, and of resize | call with a padding from a small pool through format / draw / fmt / "
+                "render; EVERY output judged by the oracle against the padding and terminal size in force (model/PadHist.v "
+                "spec_descrs). Non-trivial history: a frame revisited after a same-box padding change, or a relative per-call "
+                "padding repeated after a resize.",
+        "samples": [describe(c) for c in cases[:2] + cases[40:42] if "render" in c]
+                   + [describe_history(c) for c in histories[:1] + histories[22:23] + histories[-2:]],
         "histogram": hist,
         "mismatches": mismatches,
         "failures": failures,
         "errors": errors,
         "assumptions": ["the inner render satisfies the line-structured render contract (LinesRect; proved for all five render shapes in C01's development)",
+                        "histories: _render_ is a function of (frame number, render size) and returns a frame of the requested size; "
+                        "the loop budget of the iterator is not exhausted; seek() with Seek.START on a definite frame count",
                         "fill is one one-column glyph or empty", "terminal conventions of lib/Term.v"],
         "trusted": ["harness/lexer.py"],
     }
